@@ -1,3 +1,3 @@
 SPECIFICATION Spec
-INVARIANTS C04_CompletedIteration C04_NoIterationDestroys C04_NoCascadeListed C04_NoMarkedListed C04_NoDivergedListed C04_NoLongBrokenListed C04_NoDataLagJoiner C04_EvictOnlyWithMaster
+INVARIANTS C04_CompletedIteration C04_NoIterationDestroys C04_NoCascadeListed C04_NoMarkedListed C04_NoDivergedListed C04_NoLongBrokenListed C04_NoDataLagJoiner C04_EvictOnlyWithMaster C04_NotListedWhenMarked
 CHECK_DEADLOCK FALSE
